@@ -141,6 +141,11 @@ def decode_switch(body, bb):
             neg = not neg
             o = d[1]["a"]
             continue
+        if d[0] == "call" and d[1].name in ("anyhow::__private::not", "std::ops::Not::not") and len(d[1].args) == 1 and body.local_ty(d[1].dest["l"]) == "bool":
+            # `ensure!(cond)` tests `not(cond)`; `cond.not()`
+            neg = not neg
+            o = d[1].args[0]
+            continue
         break
     c.negated = neg
     d = def_rvalue(body, o)
